@@ -1436,7 +1436,7 @@ m("C16", "relative-dir-last", ZT,
   "                search_path.insert(0, path)  # type: ignore[arg-type]",
   "                search_path.append(path)  # type: ignore[arg-type]")
 m("C16", "registry-bypassed", LO,
-  '''        template = self.registry.get(args)
+  '''        template = self.registry.get(key)
         if template is None:''',
   '''        template = None
         if template is None:''')
@@ -2038,3 +2038,6 @@ m("C14", "translate-mapping-in-set-order", C,
 m("C08", "indent-counted-in-blanks", ZP,
   '''                indent if not indent.strip() else " " * len(indent)''',
   '''                " " * len(indent)''')
+m("C14", "registry-key-ignores-keywords", LO,
+  "        key = args + tuple(sorted(kwargs.items()))\n",
+  "        key = args\n")
